@@ -874,6 +874,24 @@ pub fn candidates(spec: &Spec, k: usize, r: &mut Rng, random_extra: usize) -> Ve
                     out.push(Candidate { content: render(spec, k, &over, &default_counts), component: comp_label.clone(), class: format!("date={d}") });
                 }
             }
+            // currencies with 0, 3 and 4 decimals together with an amount of that precision
+            if c.name == "ccy"
+                && let Some(ai) = spec.lines[li].comps.iter().position(|x| x.name == "amount")
+            {
+                for (cy, am) in [("JPY", "6000000,"), ("JPY", "123,"), ("KRW", "1,"), ("KWD", "999,875"), ("BHD", "12,345"), ("CLF", "1,2345"), ("EUR", "10,5"), ("USD", "999999999999,99")] {
+                    let alit = spec.lines[li].comps[ai].lit.clone();
+                    let over = |l2: usize, c2: usize, rep: usize| {
+                        if l2 == li && c2 == ci && rep == 0 {
+                            Some(format!("{}{}", c.lit, cy))
+                        } else if l2 == li && c2 == ai && rep == 0 {
+                            Some(format!("{}{}", alit, am))
+                        } else {
+                            None
+                        }
+                    };
+                    out.push(Candidate { content: render(spec, k, &over, &default_counts), component: comp_label.clone(), class: format!("ccy={cy}{am}") });
+                }
+            }
             // zero amounts / rates
             if matches!(c.name.as_str(), "amount" | "rate") {
                 for z in ["0,", "0,00"] {
